@@ -97,6 +97,8 @@ def gen_plan(rng, index, tier):
         maxit = rng.randint(1, 3)
         st["tightCoupling"] = True
         st["tightCouplingMaxNumIters"] = maxit
+        if rng.random() < 0.4:
+            st["cyclesSkipTightCouplingInteraction"] = sorted(rng.sample(range(n), rng.randint(1, n)))
     if rng.random() < 0.25:
         st["syncAfterWrite"] = False
     rng.random()  # (debugDB is not part of the swarm: see DESIGN.md section 10)
@@ -188,7 +190,7 @@ def simplify(plan):
     st = cfg["settings"]
     if st.get("tightCoupling"):
         p = copy.deepcopy(plan)
-        for k in ("tightCoupling", "tightCouplingMaxNumIters", "tightCouplingSettings"):
+        for k in ("tightCoupling", "tightCouplingMaxNumIters", "tightCouplingSettings", "cyclesSkipTightCouplingInteraction"):
             p["config"]["settings"].pop(k, None)
         for a in p["config"]["actors"]:
             a.pop("conv", None)
